@@ -21,7 +21,9 @@ impl TcpObservation {
     }
 
     pub(crate) fn distance_wscale(&self, other: &tcp::Signature) -> Option<u32> {
-        if other.wscale.is_none() || self.wscale == other.wscale {
+        // a packet without a window-scale option has scale 0 (p0f), which is what a signature
+        // written `...,0:` for a layout without `ws` asks for
+        if other.wscale.is_none() || self.wscale.unwrap_or(0) == other.wscale.unwrap_or(0) {
             Some(tcp::TcpMatchQuality::High.as_score())
         } else {
             Some(tcp::TcpMatchQuality::Medium.as_score())
